@@ -593,12 +593,12 @@ func (aof *AppendableFile) SwitchToReadOnlyMode() error {
 		return err
 	}
 
-	if aof.retryableSync {
-		// syncing is required to free the write buffer with retryable sync
-		err := aof.sync()
-		if err != nil {
-			return err
-		}
+	// syncing is required to free the write buffer with retryable sync.
+	// Without retryable sync it is also needed: the file is not going to be written
+	// anymore and later Sync calls on a multi-file appendable only reach the current file
+	err = aof.sync()
+	if err != nil {
+		return err
 	}
 
 	aof.writeBuffer = nil
